@@ -134,7 +134,8 @@ type (
 		creq    *clientReq
 		session *shareSession // session at registration time; stale if overwritten
 		in      []*partData
-		ackTs   []ackTopic // piggybacked ack topics from the initial request
+		ackTs   []ackTopic      // piggybacked ack topics from the initial request
+		ackErrs map[tpKey]int16 // error codes those acks got in the initial invocation
 		cb      func()
 		t       *time.Timer
 
